@@ -212,11 +212,15 @@ fn rand_normal_hi(r: &mut Rng) -> u64 {
 /// A low word strictly inside the half-ulp of `hi` with a random gap.
 fn lo_below_half_ulp(r: &mut Rng, hi: u64) -> u64 {
     let e_hi = ((hi & EXP_MASK) >> 52) as i64; // biased
-    let gap = match r.below(4) {
+    // the gap between the half-ulp of hi and lo: dense near 0, and uniform over everything the
+    // exponent range allows (a low word may sit 2000 binades below the high word)
+    let max_gap = (e_hi - 54 + 52).max(0); // down to the smallest subnormal
+    let gap = match r.below(6) {
         0 => 0,
         1 => r.range(0, 3),
         2 => r.range(0, 60),
-        _ => r.range(0, 600),
+        3 => r.range(0, 600),
+        _ => r.range(0, max_gap),
     };
     let e_lo = e_hi - 54 - gap; // biased exponent of lo: |lo| < 2^(E_hi-53)
     let sign = rand_sign(r);
@@ -417,26 +421,39 @@ fn api_chain_inner(r: &mut Rng, trace: &mut String) -> TwoFloat {
             1 => x - leaf(r),
             2 => x * leaf(r),
             3 => x / leaf(r),
-            4 => x.abs().sqrt(),
-            5 => {
-                if x.hi().abs() < 300.0 {
-                    x.exp()
-                } else {
-                    x
-                }
-            }
-            6 => x.abs().ln(),
-            7 => x.sin(),
-            8 => x.cos(),
             9 => -x,
             10 => x.recip(),
             11 => x.fract(),
             12 => x.floor(),
             13 => x * pow2(r.range(-300, 300) as i32),
             14 => x.powi(r.range(-4, 4) as i32),
-            _ => x.cbrt(),
+            other => math_op(x, other),
         };
     }
+    x
+}
+
+/// The operations that need twofloat's `math_funcs` feature (absent in the no-math build configurations).
+#[cfg(feature = "mathapi")]
+fn math_op(x: TwoFloat, op: u64) -> TwoFloat {
+    match op {
+        4 => x.abs().sqrt(),
+        5 => {
+            if x.hi().abs() < 300.0 {
+                x.exp()
+            } else {
+                x
+            }
+        }
+        6 => x.abs().ln(),
+        7 => x.sin(),
+        8 => x.cos(),
+        _ => x.cbrt(),
+    }
+}
+
+#[cfg(not(feature = "mathapi"))]
+fn math_op(x: TwoFloat, _op: u64) -> TwoFloat {
     x
 }
 
